@@ -144,19 +144,7 @@ def run(rep: Report, ctx: Any) -> str:
             if not assigns:
                 continue
             # names that hold results of steps which received the state
-            derived = {var}
-            changed = True
-            while changed:
-                changed = False
-                for n in ast.walk(f.node):
-                    if isinstance(n, (ast.Assign, ast.AnnAssign)) and n.value is not None:
-                        tgts = n.targets if isinstance(n, ast.Assign) else [n.target]
-                        if _takes(n.value, derived):
-                            for tg in tgts:
-                                for x in ([tg] if isinstance(tg, ast.Name) else (list(tg.elts) if isinstance(tg, ast.Tuple) else [])):
-                                    if isinstance(x, ast.Name) and x.id not in derived:
-                                        derived.add(x.id)
-                                        changed = True
+            derived = _derived(f.node, {var})
             for a in assigns:
                 n_thr += 1
                 v = a.value
@@ -178,14 +166,19 @@ def run(rep: Report, ctx: Any) -> str:
         if not at:
             continue
         errs = error_names(f.node)
+        # the state as this function holds it: the threaded variable, and the locals bound to (an element of) the result of a step that
+        # received it - the same notion of `result of a step` by which the rebinding of the variable is judged above, so `schemas = new;
+        # return err, schemas` and `return err, new` are one decision
+        live = _derived(f.node, {"schemas"} | {p_.arg for p_ in f.params if p_.annotation is not None and "Schemas" in _type_names(p_.annotation)})
         for r in ast.walk(f.node):
             if isinstance(r, ast.Return) and isinstance(r.value, ast.Tuple) and len(r.value.elts) == len(parts) and returns_error(r, errs):
                 n_ret += 1
                 states = [r.value.elts[i] for i in at]
                 label = next((norm(e) for i, e in enumerate(r.value.elts) if i not in at), "")
-                rep.check(all(isinstance(s2, ast.Name) and s2.id == "schemas" for s2 in states), "R08.3", f"{short(f)}::error-return-state[{label[:30]}]",
-                          "an error is returned together with something other than the threaded `schemas` variable", where(f, r),
-                          lhs=[norm(s2) for s2 in states], rhs="schemas")
+                rep.check(all(isinstance(s2, ast.Name) and s2.id in live for s2 in states), "R08.3", f"{short(f)}::error-return-state[{label[:30]}]",
+                          "an error is returned together with something other than the threaded `schemas` state (the variable itself, or "
+                          "a local that holds the result of a step which received it)", where(f, r),
+                          lhs=[norm(s2) for s2 in states], rhs="schemas / <result of f(..., schemas=...)>")
     rep.floor("error_returns_with_state", n_ret, 16)
 
     # ---- R08.4 ----------------------------------------------------------------------------------------------------------------
@@ -276,6 +269,24 @@ def _takes(v: ast.expr, names: set[str]) -> bool:
                 return True
         return False
     return False
+
+
+def _derived(fn: ast.AST, base: set[str]) -> set[str]:
+    """`base` and the locals bound to (an element of) the result of a call that received one of them (transitively)"""
+    derived = set(base)
+    changed = True
+    while changed:
+        changed = False
+        for n in ast.walk(fn):
+            if isinstance(n, (ast.Assign, ast.AnnAssign)) and n.value is not None:
+                tgts = n.targets if isinstance(n, ast.Assign) else [n.target]
+                if _takes(n.value, derived):
+                    for tg in tgts:
+                        for x in ([tg] if isinstance(tg, ast.Name) else (list(tg.elts) if isinstance(tg, ast.Tuple) else [])):
+                            if isinstance(x, ast.Name) and x.id not in derived:
+                                derived.add(x.id)
+                                changed = True
+    return derived
 
 
 def _result_name(fn: ast.AST, name: str, var: str) -> bool:
